@@ -398,8 +398,13 @@ func names(m map[string]func() ([]byte, error)) []string {
 	return out
 }
 
-func genInput(t *rapid.T) Input {
-	kind := rapid.SampledFrom([]string{"bundle", "bundle", "sxg", "sxg", "subset", "certchain", "iblock", "sh-pl", "sh-ll", "mice", "bundleid"}).Draw(t, "kind")
+func genInput(t *rapid.T) Input { return genInputOf(t, "") }
+
+// genInputOf draws an input of the given kind ("" = any).
+func genInputOf(t *rapid.T, kind string) Input {
+	if kind == "" {
+		kind = rapid.SampledFrom([]string{"bundle", "bundle", "sxg", "sxg", "subset", "certchain", "iblock", "sh-pl", "sh-ll", "mice", "bundleid"}).Draw(t, "kind")
+	}
 	in := Input{Kind: kind, N: rapid.IntRange(0, 12).Draw(t, "n"), Tag: rapid.Uint64Range(0, 1<<32).Draw(t, "tag")}
 	switch kind {
 	case "bundle":
@@ -528,6 +533,24 @@ func TestPropPermutations(t *testing.T) { permProp.Rapid(t, genPermCase) }
 // versions) serialised at the same time on 8 goroutines, each compared with itself (see
 // vh.Prop.Concurrent). TestPropConcurrent shares objects between goroutines; this one is about
 // state shared between separate objects.
+// TestConcSameKind: the 8 goroutines of a batch all work on inputs of ONE kind (signed exchanges
+// with different certificates, or certificate chains, or MI encodings, ...) and call its
+// serializers 60 times in a row: objects of the same type are the ones that share package-level
+// state, and a narrow window needs many overlapping calls of the same function.
+func TestConcSameKind(t *testing.T) {
+	kinds := []string{"sxg", "sxg", "certchain", "subset", "mice", "sh-pl", "sh-ll", "iblock", "bundle", "bundleid"}
+	turn := 0
+	permProp.Concurrent(t, func(t *rapid.T) PermCase {
+		k := kinds[(turn/4)%len(kinds)] // Concurrent draws 4 distinct cases per batch
+		turn++
+		c := PermCase{In: genInputOf(t, k), Perms: []uint64{rapid.Uint64Range(1, 1<<40).Draw(t, "perm")}, Reps: 60}
+		if k == "bundle" {
+			c.Reps = 8
+		}
+		return c
+	}, 8, 1)
+}
+
 func TestConcPermutations(t *testing.T) {
 	permProp.Concurrent(t, func(t *rapid.T) PermCase {
 		c := genPermCase(t)
